@@ -84,6 +84,12 @@ def check(run):
         scheds = scheds[:56]
         scheds += [[{"point": p, "cls": "trunc1"}] for p in ("incb", "cb.ret", "persisted", "truncated")]
     scns = [build(rng, s, thorough) for s in scheds]
+    # a consumer that lags far behind: more than ten segments appended before anything is consumed - in one run, and with a
+    # kill right at the start followed by a restart in front of the backlog.  Truncation must never get ahead of the consumer.
+    scns.append({"rounds": [{"append": 5600, "clean": True}]})
+    scns.append({"rounds": [{"append": 5600, "kill": {"point": "persisted", "off": 3}}, {"append": 7, "clean": True}]})
+    if thorough:
+        scns.append({"rounds": [{"append": 7300, "kill": {"point": "incb", "off": 2100}}, {"append": 600, "clean": True}]})
     spath = os.path.join(run.scratch, "scenarios.ndjson")
     with open(spath, "w") as f:
         for s in scns:
@@ -114,7 +120,8 @@ def check(run):
         "distinct_nontrivial": len(scns),
         "rule": "scenario = TLC-generated crash schedule (kill phase in {inside callback, after callback return, after offset write, after "
                 "truncation check} x offset class in log order) mapped to concrete offsets around 0-1, 9-11, 499-501, 1999-2001, 2999-3001 "
-                "and random ones, appends before and during consumption, closed by a clean run that must hand over every entry; "
+                "and random ones, appends before and during consumption, closed by a clean run that must hand over every entry; plus backlogs of "
+                "5600 entries (more than ten segments) appended before anything is consumed, with and without a kill and restart in front of them; "
                 "evaluations = SIGKILLs executed; distinct = crash schedules",
         "events_validated": nev, "trace_spec_states": tstates, "rejections": len(rejected),
         "negative_control": "MC with Margin=0 violates TruncSafe as required",
